@@ -19,7 +19,6 @@ import (
 	"hash"
 )
 
-
 // The size of the checksum in bytes.
 const rmdSize = 20
 
@@ -36,10 +35,10 @@ const (
 
 // digest represents the partial evaluation of a checksum.
 type digest struct {
-	s  [5]uint32       // running context
+	s  [5]uint32          // running context
 	x  [rmdBlockSize]byte // temporary buffer
-	nx int             // index into x
-	tc uint64          // total count of bytes processed
+	nx int                // index into x
+	tc uint64             // total count of bytes processed
 }
 
 func (d *digest) Reset() {
